@@ -8,13 +8,17 @@ from vlib import hexd, frac, frac_of_hex, unhex
 EPS = 2.0 ** -52
 
 
-STYLES = ["dyadic", "full", "tinyscale", "illcond", "rankdef", "scalar", "tall", "identityH", "diagonal", "zeroinnov", "symH", "hugescale", "mixedscale", "neardup", "full"]
+STYLES = ["dyadic", "full", "tinyscale", "illcond", "rankdef", "scalar", "tall", "identityH", "diagonal", "zeroinnov", "symH", "hugescale", "mixedscale", "neardup", "full", "selector", "blockdup", "microscale", "bigdim", "zerorowcorr"]
 
 
 def scale_of(r, style, which):
     """overall magnitude of a covariance: the property constrains conditioning, not scale"""
     if style == "tinyscale":
         return 10 ** r.uniform(-10, -4)
+    if style == "microscale":
+        # every entry of P and R far below 1e-12 (Eigen's isZero / isMuchSmallerThan defaults), det R far below
+        # DBL_EPSILON, everything perfectly conditioned: the property bounds conditioning, not magnitude
+        return 10 ** r.uniform(-24, -13)
     if style == "hugescale":
         return 10 ** r.uniform(4, 10)
     if style == "mixedscale":
@@ -27,7 +31,17 @@ def gen_model(g, tier, idx):
     r = g.r
     big = 6 if tier == "quick" else 7
     style = STYLES[idx % len(STYLES)] if idx < 3 * len(STYLES) else r.choice(STYLES)
-    if idx < 36:
+    g.big = False
+    if style == "bigdim":
+        # Eigen switches product / inverse kernels with the size (lazy coefficient products below
+        # rows+cols+depth = 20, closed-form inverses up to 4x4): in-place / aliasing rewrites show from 7-8 on
+        n, m = r.choice([7, 8, 9, 12]), r.choice([5, 7, 8, 12])
+        if idx < len(STYLES):
+            n, m = 12, 12
+        style = "dyadic"                              # short mantissas: the exact rational side stays cheap
+        g.big = True
+        g.bigsel = r.choice([0, 0, 1, 2])             # dense H / scaled signed selector / some all-zero rows
+    elif idx < 36:
         n, m = idx // 6 + 1, idx % 6 + 1          # the whole (n, m) grid 1..6 x 1..6 first
         if style in ("identityH", "symH"):
             m = n
@@ -40,8 +54,11 @@ def gen_model(g, tier, idx):
         m = r.randint(n + 1, min(big, n + 3))
     elif style in ("identityH", "symH"):
         n = m = r.randint(1, big)
+    elif style == "blockdup":
+        n, m = r.randint(2, big), r.randint(2, big)
     else:
         n, m = r.randint(1, big), r.randint(1, big)
+    g.blk = (max(1, n // 2), 10 ** r.uniform(-20, -13))
     H, R = gen_HR(g, style, n, m)
     return style, n, m, H, R
 
@@ -59,6 +76,13 @@ def gen_HR(g, style, n, m):
             sc = 10 ** r.uniform(-6, -3)           # a precise sensor: the weak directions of P matter
         R = g.spd(m, cond=cond, scale=sc)
         H = g.mat(m, n)
+    if getattr(g, "big", False) and getattr(g, "bigsel", 0) == 1:
+        H = [[0.0] * n for _ in range(m)]
+        for i in range(m):
+            H[i][r.randrange(n)] = r.choice([-1.0, 2.5, -0.5, 3.0, -4.0])
+    if getattr(g, "big", False) and getattr(g, "bigsel", 0) == 2:
+        for i in r.sample(range(m), max(1, m // 3)):
+            H[i] = [0.0] * n
     if style == "identityH":
         H = [[1.0 if i == j else 0.0 for j in range(n)] for i in range(m)]
     if style == "symH":
@@ -66,6 +90,24 @@ def gen_HR(g, style, n, m):
     if style == "diagonal":
         H = [[(H[i][j] if i == j else 0.0) for j in range(n)] for i in range(m)]
         R = [[(R[i][j] if i == j else 0.0) for j in range(m)] for i in range(m)]
+    if style == "selector":
+        # every row has exactly one non-zero entry, not equal to 1: a state component in other units / along an
+        # inverted axis (scaled, signed selectors; columns may repeat or stay unobserved)
+        H = [[0.0] * n for _ in range(m)]
+        for i in range(m):
+            H[i][r.randrange(n)] = r.choice([-1.0, 2.5, -0.5, 1e3, -1e-3, 3.0, r.uniform(-4, 4) or 2.0])
+    if style == "zerorowcorr":
+        # measurement channels that do not see the state (all-zero rows of H) whose noise is correlated with the
+        # noise of the other channels: they are informative through R
+        for i in r.sample(range(m), r.randint(1, max(1, m - 1)) if m > 1 else 1):
+            H[i] = [0.0] * n
+        R = g.spd(m, cond=10 ** r.uniform(0.5, 2))
+    if style == "blockdup":
+        # trailing block of the state at a scale ts (1e-13 .. 1e-20) observed in fine units (H ~ ts^-1/2): S = O(1)
+        n1, ts = g.blk
+        m1 = max(1, m // 2)
+        R = g.spd(m, cond=10 ** r.uniform(0, 1), scale=10 ** r.uniform(-1, 0))     # S well conditioned: sharp bounds
+        H = [[(H[i][j] if (i < m1) == (j < n1) else 0.0) * (ts ** -0.5 if j >= n1 else 1.0) for j in range(n)] for i in range(m)]
     if style == "rankdef" or (style == "tall" and r.random() < 0.5):
         mode = r.choice(["zero", "zerorow", "duprow", "rank1"])
         if mode == "zero":
@@ -83,6 +125,8 @@ def gen_HR(g, style, n, m):
 def gen_call(g, style, n, m, H):
     r = g.r
     k = r.choice([1, 1, 2, 3, 4, 6])
+    if getattr(g, "big", False):
+        k = r.choice([1, 2])
     if style == "dyadic":
         Ps = [g.spd_dyadic(n) for _ in range(k)]
         means = [[g.dyadic(-4, 4, 3) for _ in range(n)] for _ in range(k)]
@@ -104,6 +148,19 @@ def gen_call(g, style, n, m, H):
             l2[-1] = lam[-1] * (1.0 + t)
             Ps.append(g.assemble(U, l2))
         means = [g.vec(n) for _ in range(k)]
+    if style == "blockdup":
+        # consecutive components with the same leading block (scale 1) and trailing blocks (scale ts) that differ
+        # by O(1) relative to their own scale: equal for Eigen's isApprox (1e-12 relative to the whole matrix)
+        k = r.choice([2, 3, 4])
+        n1, ts = g.blk
+        A = g.spd(n1, cond=10 ** r.uniform(0, 3), scale=10 ** r.uniform(-1, 1))
+        Ps = []
+        for c in range(k):
+            B = g.spd(n - n1, cond=10 ** r.uniform(0, 2), scale=ts * r.choice([1.0, 2.0, 0.5, 3.0]))
+            Ps.append([[(A[i][j] if i < n1 and j < n1 else (B[i - n1][j - n1] if i >= n1 and j >= n1 else 0.0)) for j in range(n)] for i in range(n)])
+        means = [g.vec(n) for _ in range(k)]
+        means = [list(mm_[:n1]) + [ts ** 0.5 * v for v in mm_[n1:]] for mm_ in means]
+        y = g.vec(m)
     if style == "diagonal":
         Ps = [[[(P[i][j] if i == j else 0.0) for j in range(n)] for i in range(n)] for P in Ps]
     if style == "zeroinnov":
@@ -122,7 +179,7 @@ def gen_case(g, tier, idx):
     the likelihood queried 1..3 times after each -> (harness line, [single-call kfc lines], meta)"""
     r = g.r
     style, n, m, H, R = gen_model(g, tier, idx)
-    ncalls = r.choice([1, 1, 2, 3])
+    ncalls = r.choice([1, 1, 2, 3]) if not g.big else 1
     seq = ["kfcv", str(n), str(m), str(ncalls)]
     singles = []
     varied = handed = 0
@@ -148,7 +205,7 @@ def gen_case(g, tier, idx):
         wmodes[wmode] = wmodes.get(wmode, 0) + 1
         seq += [str(hand), str(len(hist))] + hist + head + toks[:m] + [str(nlik), str(wmode), str(k)] + toks[m:]
         singles.append(" ".join(["kfc", str(n), str(m), str(k)] + head + toks))
-    return " ".join(seq), singles, {"style": style, "n": n, "m": m, "calls": ncalls, "model_changes": varied, "hand_overs": handed, "wmodes": wmodes}
+    return " ".join(seq), singles, {"style": style + ("@bigdim" if g.big else ""), "n": n, "m": m, "calls": ncalls, "model_changes": varied, "hand_overs": handed, "wmodes": wmodes}
 
 
 def split_seq_output(hout, ncalls):
@@ -202,7 +259,7 @@ def det_frac(A):
     return d
 
 
-def check_case(ctx, line, meta, hout, dout, iout, stats, lout=None):
+def check_case(ctx, line, meta, hout, dout, iout, stats, lout=None, exact_info=True):
     """returns list of (key, what) problems; the first element says 'corr' (model/impl disagree)
     or 'prop' (implementation violates the property's own predicates)"""
     probs = []
@@ -258,8 +315,20 @@ def check_case(ctx, line, meta, hout, dout, iout, stats, lout=None):
         nx = max([abs(float(v)) for v in means[c]] + [0.0])
         tolm = 64 * EPS * kS * (Kn * nnu + nx + 1e-300) * max(n, m)
         stats["max_kS"] = max(stats.get("max_kS", 0.0), kS)
+        # the same bounds in equilibrated state coordinates x_i / d_i, d_i = sqrt(P_ii) (the correction is covariant
+        # under a diagonal rescaling of the state, and so is its rounding: row i of P H^T, of K and of K S K^T scales
+        # with d_i): entry (i, j) of the covariance is held to d_i d_j times the bound of the scaled problem, which
+        # keeps the check sensitive at the scale of a small block - a bound relative to the whole matrix hides O(1)
+        # errors there
+        dS = [max(float(P[i][i]), 0.0) ** 0.5 for i in range(n)]
+        nPs = (sum((float(P[i][j]) / (dS[i] * dS[j])) ** 2 for i in range(n) for j in range(n) if dS[i] and dS[j]) ** 0.5) * n
+        nHs = (sum((float(H[a][j]) * dS[j]) ** 2 for a in range(m) for j in range(n)) ** 0.5) * max(n, m)
+        Ks = nPs * nHs * nSi
+        tolPs = 64 * EPS * kS * (Ks * Ks * nS + nPs) * max(n, m)
+        tolms = 64 * EPS * kS * Ks * nnu * max(n, m)
         # theorem instance on the executed ℚ model: gain form == information form, exactly
-        if mP[c] != oP[c] or mm[c] != om[c]:
+        # (prior exactly symmetric: the theorem's hypothesis; beliefs a filter reaches are symmetric up to rounding only)
+        if exact_info and (mP[c] != oP[c] or mm[c] != om[c]):
             probs.append(("corr", "model-vs-information-form", "exact model output differs from (P^-1+H^T R^-1 H)^-1 form: theorem instance fails on Q"))
         # correspondence: implementation vs model
         errP = max(abs(Fraction(cP[c][i][j]) - mP[c][i][j]) for i in range(n) for j in range(n))
@@ -275,10 +344,14 @@ def check_case(ctx, line, meta, hout, dout, iout, stats, lout=None):
         # property predicates on the implementation's own output
         errPo = max(abs(Fraction(cP[c][i][j]) - oP[c][i][j]) for i in range(n) for j in range(n))
         errmo = max(abs(Fraction(cm[c][i]) - om[c][i]) for i in range(n))
-        if errPo > tolP:
-            probs.append(("prop", "cov-not-posterior", "component %d: covariance is not (P^-1+H^T R^-1 H)^-1: err %.3g tol %.3g" % (c, float(errPo), tolP)))
-        if errmo > tolm:
-            probs.append(("prop", "mean-not-posterior", "component %d: mean is not the posterior mean: err %.3g tol %.3g" % (c, float(errmo), tolm)))
+        relE = max(float(abs(Fraction(cP[c][i][j]) - oP[c][i][j])) / (dS[i] * dS[j] * tolPs + 1e-300) for i in range(n) for j in range(n))
+        relmE = max(float(abs(Fraction(cm[c][i]) - om[c][i])) / (dS[i] * tolms + 64 * EPS * kS * max(n, m) * abs(float(means[c][i])) + 1e-300) for i in range(n))
+        stats["max_relerr_cov_scaled"] = max(stats.get("max_relerr_cov_scaled", 0.0), relE)
+        stats["max_relerr_mean_scaled"] = max(stats.get("max_relerr_mean_scaled", 0.0), relmE)
+        if errPo > tolP or relE > 1.0:
+            probs.append(("prop", "cov-not-posterior", "component %d: covariance is not (P^-1+H^T R^-1 H)^-1: err %.3g tol %.3g (in equilibrated state coordinates: %.3g of the bound)" % (c, float(errPo), tolP, relE)))
+        if errmo > tolm or relmE > 1.0:
+            probs.append(("prop", "mean-not-posterior", "component %d: mean is not the posterior mean: err %.3g tol %.3g (in equilibrated state coordinates: %.3g of the bound)" % (c, float(errmo), tolm, relmE)))
         asym = max(abs(cP[c][i][j] - cP[c][j][i]) for i in range(n) for j in range(n))
         if asym > 2 * tolP:
             probs.append(("prop", "cov-asymmetric", "component %d: corrected covariance asymmetric by %.3g" % (c, asym)))
@@ -308,6 +381,66 @@ def check_case(ctx, line, meta, hout, dout, iout, stats, lout=None):
             elif lout is not None:
                 probs.append(("corr", "model-likelihood-undefined", "model kfLikelihood not defined: %s" % lout[:40]))
     return probs
+
+
+def plumbing(ctx, binary):
+    """LinearMeasurementModel::predictedMeasure / innovation on batches (model linPredictedMeasure /
+    linInnovation, theorem lin_innovation_col) and the LTIMeasurementModel constructor checks (model
+    ltiMeasCtor, theorem lti_ctor_ok_iff; all shape quadruples 0..3 enumerated)."""
+    g = ctx.gen("lmm")
+    r = g.r
+    prop_bad, corr_bad = [], []
+    lines = []
+    for i in range(ctx.n(24, 120)):
+        n, m, k, c = r.randint(1, 6), r.randint(1, 6), r.choice([1, 2, 3, 5]), r.choice([0, 0, 1, 3])
+        if i % 6 == 5:
+            n, m = r.choice([8, 12]), r.choice([7, 12])
+        H, X, Y = g.mat(m, n), g.mat(n, k), g.mat(m, c + 1)
+        if i % 4 == 1:
+            sc = 10 ** r.uniform(-12, 9)
+            X = [[sc * v for v in row] for row in X]
+            Y = [[sc * v for v in row] for row in Y]
+        lines.append(" ".join(["lmm", str(n), str(m), str(k)] + vlib.fmt_mat_cm(H) + vlib.fmt_mat_cm(X) + [str(c)] + vlib.fmt_mat_cm(Y)))
+    ct = ["ltictor %d %d %d %d" % (a, b, c, d) for a in range(4) for b in range(4) for c in range(4) for d in range(4)]
+    hout, logs = vlib.run_harness(binary, lines + ct)
+    dout = vlib.run_driver(lines + ct)
+    for ln, ho, do in zip(lines, hout, dout):
+        t = ln.split()
+        n, m, k = int(t[1]), int(t[2]), int(t[3])
+        if not ho.startswith("ok") or not do.startswith("ok"):
+            prop_bad.append(("plumbing-failed", "LinearMeasurementModel::predictedMeasure/innovation failed on a valid batch: %s / %s" % (ho[:60], do[:40]), ln, ho))
+            continue
+        try:
+            hv = [unhex(x) for x in ho.split()[1:]]
+            dv = [frac(x) for x in do.split()[1:]]
+            if len(hv) != 2 * m * k or len(dv) != 2 * m * k:
+                raise ValueError("shape")
+            H = vlib.mat_from_cm(t[4:4 + m * n], m, n, frac_of_hex)
+            X = vlib.mat_from_cm(t[4 + m * n:4 + m * n + n * k], n, k, frac_of_hex)
+            c = int(t[4 + m * n + n * k])
+            Y = vlib.mat_from_cm(t[5 + m * n + n * k:], m, c + 1, frac_of_hex)
+            for j in range(k):
+                for i in range(m):
+                    mag = sum(abs(H[i][l] * X[l][j]) for l in range(n))
+                    tol = 8 * EPS * n * float(mag) + 1e-300
+                    pe, ie = dv[j * m + i], dv[m * k + j * m + i]
+                    if abs(Fraction(hv[j * m + i]) - pe) > tol:
+                        prop_bad.append(("predicted-measure-wrong", "predictedMeasure(%d,%d) is not (H X)(%d,%d)" % (i, j, i, j), ln, ho)); raise StopIteration
+                    if abs(Fraction(hv[m * k + j * m + i]) - ie) > tol + 2 * EPS * abs(float(Y[i][0])):
+                        prop_bad.append(("innovation-wrong", "innovation(%d,%d) is not y_%d - (H x_%d)_%d" % (i, j, i, j, i), ln, ho)); raise StopIteration
+                    # the innovation is exactly the rounded difference of the model's own predicted measure
+                    if hv[m * k + j * m + i] != -(hv[j * m + i] - float(Y[i][0])):
+                        prop_bad.append(("innovation-not-difference", "innovation(%d,%d) is not measurement - predicted measurement" % (i, j), ln, ho)); raise StopIteration
+        except StopIteration:
+            pass
+        except Exception as ex:
+            prop_bad.append(("unreadable-result", "plumbing output cannot be evaluated (%s): %s" % (ex, ho[:80]), ln, ho))
+    bad_ct = 0
+    for ln, ho, do in zip(ct, hout[len(lines):], dout[len(lines):]):
+        if ho != do:
+            bad_ct += 1
+            prop_bad.append(("lti-ctor-check", "LTIMeasurementModel constructor with shapes H %sx%s, R %sx%s: %s, model %s" % (tuple(ln.split()[1:]) + (ho, do)), ln, ho))
+    return prop_bad, corr_bad, {"batches": len(lines), "ctor_shapes_enumerated": len(ct), "ctor_mismatches": bad_ct, "exhaustive": "all (rows(H), cols(H), rows(R), cols(R)) in 0..3"}
 
 
 def replay_case(path):
@@ -345,17 +478,31 @@ def run(ctx):
     ctx.proof_stage()
     binary = vlib.build_harness("h_kf")
     g = ctx.gen("kfc")
-    N = ctx.n(85, 320)
+    N = ctx.n(72, 320)
     cases = []   # (harness line, [kfc single lines], meta)
     corpus = vlib.VERIF / "corpus" / "C01" / "cases.txt"
     if corpus.exists():
         for ln in corpus.read_text().split("\n"):
             if ln.strip():
                 cases.append((ln.strip(), [ln.strip()], {"style": "corpus", "calls": 1}))
+    import os
+    stages = set((os.environ.get("KF_STAGES") or "main,hist,plumb").split(","))   # mutation trials may run one stage only
+    if "main" not in stages:
+        cases, N = [], 0
     for i in range(N):
         cases.append(gen_case(g, ctx.tier, i))
+    hist_replay = None
     if ctx.replay:
-        cases = [replay_case(ctx.replay)]
+        import json
+        rl = json.load(open(ctx.replay))["replay"]["input_line"]
+        if rl.split()[0] in ("kfh", "kfht"):
+            from checks import kfhist
+            hist_replay = kfhist.parse_line(rl)
+            cases = []
+        elif rl.split()[0] in ("lmm", "ltictor"):
+            cases = []
+        else:
+            cases = [replay_case(ctx.replay)]
     hlines = [c[0] for c in cases]
     hout, logs = vlib.run_harness(binary, hlines)
     singles = [l for c in cases for l in c[1]]
@@ -391,6 +538,18 @@ def run(ctx):
             for kind, key2, what in res:
                 (corr_bad if kind == "corr" else prop_bad).append((key2, what, hline, h))
             pos += 1
+    # --- whole filter histories (Model/KFHist.lean) and the measurement-model plumbing
+    from checks import kfhist
+    hstats, pstats = {}, {}
+    if (not ctx.replay and "hist" in stages) or hist_replay:
+        hists = [hist_replay] if hist_replay else [kfhist.gen_history(ctx.gen("kfh"), i, ctx.tier) for i in range(ctx.n(21, 60))]
+        hp, hc, hstats = kfhist.run_histories(ctx, binary, hists, "C01")
+        prop_bad += hp
+        corr_bad += hc
+    if not ctx.replay and "plumb" in stages:
+        pp, pc, pstats = plumbing(ctx, binary)
+        prop_bad += pp
+        corr_bad += pc
     for key2, what, line, h in prop_bad[:20]:
         ctx.violation(key2, "KFCorrection: " + what, {"harness": "h_kf", "input_line": line, "observed": h[:2000]})
     if corr_bad and not prop_bad:
@@ -407,11 +566,12 @@ def run(ctx):
         "rule": "KFCorrection objects over a time-varying measurement model (H, R of the same shape may change between calls) used for 1..3 successive correct() calls each (new measurement, new component count per call), likelihood queried 1..3 times per call; near-duplicate consecutive components; the (n,m) grid 1..6 x 1..6 "
                 "first, then random n,m up to %d; k in {1,2,3,4,6}; SPD with prescribed spectrum, cond<=1e6; H of any rank, identity/diagonal/symmetric/zero H, "
                 "zero innovation; non-trivial = more than one scalar dimension or more than one component; distinct = distinct single-call inputs" % (6 if ctx.quick() else 8),
-        "samples": [cases[0][0][:400], cases[-1][0][:400]],
+        "samples": [c_[0][:400] for c_ in (cases[:1] + cases[-1:])] or ["(stages without single-call cases)"],
         "input_weight_modes (0 default, 1 first zero, 2 last zero, 3 all zero, 4 un-normalised, 5 tiny, 6 one negative, 7 one-hot)": wm, "style_histogram": hist, "numeric": stats, "objects": len(cases), "nm_pairs_covered": len(dims),
         "traces_validated_against_impl": ncalls_total,
         "model_vs_impl_disagreements": len(corr_bad), "property_failures_on_impl": len(prop_bad),
         "sanitizer_crashes": len(logs),
+        "filter_histories": hstats, "measurement_model_plumbing": pstats,
     })
     ctx.assumptions += ["inverse routine contract InvOn certified exactly on every call of the Q execution",
                         "floating point: implementation compared with exact rational model within 64*eps*cond(S)*scale"]
